@@ -257,3 +257,50 @@ Proof.
   destruct (run d (shownet_handle (len d) st)) as [r|z] eqn:E; [|discriminate].
   exists r. split; [reflexivity|]. apply IH. exact Hr.
 Qed.
+
+(* ---------------------------------------------------------------- the proposed fix changes nothing inside the guard *)
+Lemma sn_fix_compat_alone d st :
+  bytes_ok d = true -> len d <= SN_PACKET_SIZE -> sn_syn d st = true ->
+  run d (shownet_handle_fixed (len d) st) = run d (shownet_handle (len d) st).
+Proof.
+  intros Hb Hn Hs. unfold shownet_handle, shownet_handle_fixed, sn_tail, sn_syn, sn_guard in *.
+  rewrite sn_received_eq by (unfold SN_PACKET_SIZE in Hn; lia).
+  pose proof (g16le_lt d (SN_HEADER_SIZE + SN_OFF_indexBlock) Hb) as B0.
+  pose proof (g16le_lt d (SN_HEADER_SIZE + SN_OFF_indexBlock + 2) Hb) as B1.
+  unfold SN_CHDR, SN_PACKET_SIZE, SN_HEADER_SIZE, SN_OFF_type, SN_COMPRESSED_SIZE, SN_COMPRESSED_DATA_LENGTH,
+    SN_OFF_indexBlock, SN_OFF_netSlot, SN_OFF_slotSize, SN_OFF_data, SN_MAGIC_INDEX_OFFSET, SN_PTR_SIZE in *.
+  cbv zeta in *.
+  destruct (len d <=? 6) eqn:E1; [reflexivity|].
+  rewrite !run_rd16be by lia.
+  destruct (negb (g16be d 0 =? SN_COMPRESSED_DMX_PACKET)) eqn:E2; [reflexivity|].
+  destruct (len d <? 6 + 16 + 2) eqn:E3; [discriminate|].
+  rewrite (run_rd16le d (6 + 16)) by lia.
+  destruct (len d - 6 <? 1310 - 1269) eqn:Ep.
+  - (* fewer than 41 bytes of block header: the fix drops at once; inside the guard the code as it is drops too *)
+    destruct (g16le d (6 + 16) <? 11) eqn:E4; [reflexivity|].
+    destruct (len d <? 6 + 16 + 4) eqn:E5; [discriminate|].
+    rewrite run_rd16le by lia. rewrite run_rd16le by lia.
+    destruct ((g16le d (6 + 16 + 2) <? g16le d (6 + 16) + 1) || (g16le d (6 + 0) =? 0)) eqn:E6; [reflexivity|].
+    destruct (len d - 6 + (1269 - 8) <? g16le d (6 + 16) - 11 + (g16le d (6 + 16 + 2) - g16le d (6 + 16))) eqn:E7;
+      [reflexivity|].
+    rewrite run_rd16le by lia.
+    destruct (g16le d (6 + 8) =? 0) eqn:E8; [reflexivity|].
+    destruct (find_h st ((g16le d (6 + 0) - 1) / DMX_UNIVERSE_SIZE)) as [b|] eqn:E9; [|reflexivity].
+    apply N.leb_le in Hs. apply N.ltb_lt in Ep. lia.
+  - rewrite (run_rd16le d (6 + 16)) by lia.
+    destruct (g16le d (6 + 16) <? 11) eqn:E4; [reflexivity|].
+    destruct (len d <? 6 + 16 + 4) eqn:E5; [discriminate|].
+    rewrite !(run_rd16le d (6 + 0)) by lia. rewrite !(run_rd16le d (6 + 16 + 2)) by lia.
+    destruct ((g16le d (6 + 16 + 2) <? g16le d (6 + 16) + 1) || (g16le d (6 + 0) =? 0)) eqn:E6; [reflexivity|].
+    apply N.ltb_ge in Ep.
+    destruct (len d - 6 + (1269 - 8) <? g16le d (6 + 16) - 11 + (g16le d (6 + 16 + 2) - g16le d (6 + 16))) eqn:E7.
+    + destruct (len d - 6 - (1310 - 1269) <? g16le d (6 + 16) - 11 + (g16le d (6 + 16 + 2) - g16le d (6 + 16))) eqn:E7b;
+        [reflexivity|]. apply N.ltb_lt in E7. apply N.ltb_ge in E7b. lia.
+    + destruct (len d - 6 - (1310 - 1269) <? g16le d (6 + 16) - 11 + (g16le d (6 + 16 + 2) - g16le d (6 + 16))) eqn:E7b;
+        [|reflexivity].
+      (* the fix drops (claims beyond what was received): inside the guard the code as it is has no handler or slotSize 0 *)
+      rewrite run_rd16le by lia.
+      destruct (g16le d (6 + 8) =? 0) eqn:E8; [reflexivity|].
+      destruct (find_h st ((g16le d (6 + 0) - 1) / DMX_UNIVERSE_SIZE)) as [b|] eqn:E9; [|reflexivity].
+      apply N.leb_le in Hs. apply N.ltb_lt in E7b. lia.
+Qed.
